@@ -18,11 +18,23 @@ import (
 
 const syncReqCount = 20
 
+// wireLimit > 0: replies are built for that MaxOutgoingMessageLength and every sent message is printed with the
+// length of its frame on the wire (gnet refuses to send a frame longer than the limit)
+var wireLimit uint64
+
+func init() {
+	mc := daemon.NewMessagesConfig()
+	mc.Register() // gnet.EncodeMessage needs the message ids
+}
+
 func syncNode(n *node) *daemon.VerifSyncNode {
 	cfg := daemon.NewDaemonConfig()
 	cfg.GetBlocksRequestCount = syncReqCount
 	cfg.MaxGetBlocksResponseCount = 5
 	cfg.MaxOutgoingMessageLength = 256 * 1024
+	if wireLimit > 0 {
+		cfg.MaxOutgoingMessageLength = wireLimit
+	}
 	return daemon.NewVerifSyncNode(n.v, cfg)
 }
 
@@ -36,6 +48,13 @@ func msgStr(kind string, m gnet.Message) string {
 		seqs := make([]string, len(x.Blocks))
 		for i := range x.Blocks {
 			seqs[i] = fmt.Sprintf("%d:%s", x.Blocks[i].Head.BkSeq, sh(x.Blocks[i].HashHeader()))
+		}
+		if wireLimit > 0 {
+			b, err := gnet.EncodeMessage(m)
+			if err != nil {
+				return fmt.Sprintf("%s:GIVB(%s)[len=unencodable]", kind, strings.Join(seqs, "+"))
+			}
+			return fmt.Sprintf("%s:GIVB(%s)[len=%d]", kind, strings.Join(seqs, "+"), len(b))
 		}
 		return fmt.Sprintf("%s:GIVB(%s)", kind, strings.Join(seqs, "+"))
 	}
@@ -81,8 +100,13 @@ func syncExec(f []string) (string, bool) {
 		sn := syncNode(n)
 		sn.ProcessAnnounceBlocks(PU64(f[2]))
 		return "Rok " + drainStr(sn), true
-	case "getblocks":
+	case "getblocks", "getblocksw":
 		n := getNode(f[1])
+		wireLimit = 0
+		if f[0] == "getblocksw" {
+			wireLimit = PU64(f[4])
+		}
+		defer func() { wireLimit = 0 }()
 		sn := syncNode(n)
 		sn.ProcessGetBlocks(PU64(f[2]), PU64(f[3]))
 		hs := make([]string, len(sn.Heights))
@@ -274,6 +298,26 @@ func syncGen(r *Rng, tier string, emit func(string)) {
 			for _, last := range []int64{int64(hs) - 2, int64(hs) - 1, int64(hs), int64(hs) + 1} {
 				if last >= 0 {
 					emit("getblocks P " + u(uint64(last)) + " " + u(uint64([]int{1, 2, 20}[r.Intn(3)])))
+				}
+			}
+		}
+		// the same under outgoing-message limits around the size of the full reply (and well below it): whatever is sent
+		// must be a non-empty prefix of the blocks asked for AND fit the wire, otherwise the requester, which asks again
+		// from the same head, gets the same unsendable reply for ever
+		if hs, ok, _ := g.node("P").v.HeadBkSeq(); ok && hs >= 2 {
+			last := uint64(r.Intn(int(hs)))
+			if blocks, err := g.node("P").v.GetSignedBlocksSince(last, 5); err == nil && len(blocks) > 0 {
+				if b, err := gnet.EncodeMessage(daemon.NewGiveBlocksMessage(blocks, 1<<20)); err == nil {
+					L := len(b)
+					for _, d := range []int{-9, -8, -7, -5, -4, -1, 0, 1} {
+						emit("getblocksw P " + u(last) + " 20 " + u(uint64(L+d)))
+					}
+					if b1, err := gnet.EncodeMessage(daemon.NewGiveBlocksMessage(blocks[:1], 1<<20)); err == nil {
+						for _, d := range []int{-8, -3, 0, 5} {
+							emit("getblocksw P " + u(last) + " 20 " + u(uint64(len(b1)+d)))
+						}
+					}
+					emit("getblocksw P " + u(last) + " 20 " + u(uint64(L/2+r.Intn(L/2+1))))
 				}
 			}
 		}
